@@ -80,6 +80,9 @@ type rewriter struct {
 	needVS  bool
 	counter int
 	err     error
+	// access pass
+	mapIdx   map[*ast.IndexExpr]string
+	mapCalls map[*ast.CallExpr]string
 }
 
 func (r *rewriter) tmp(prefix string) string {
@@ -136,6 +139,13 @@ func (r *rewriter) rewrite() error {
 		}
 	}
 	astutil.Apply(r.file, r.pre, r.post)
+	if r.err != nil {
+		return r.err
+	}
+	// memory accesses for the race detector: struct fields reached through pointers, package-level variables, maps
+	r.mapIdx = map[*ast.IndexExpr]string{}
+	r.mapCalls = map[*ast.CallExpr]string{}
+	astutil.Apply(r.file, r.preAcc, r.postAcc)
 	if r.err != nil {
 		return r.err
 	}
@@ -313,7 +323,7 @@ func (r *rewriter) rewriteRangeMap(n *ast.RangeStmt) ast.Stmt {
 	body := append(append(append([]ast.Stmt{look, skip}, useV...), pre...), n.Body.List...)
 	loop := &ast.RangeStmt{Key: ast.NewIdent("_"), Value: ast.NewIdent(kName), Tok: token.DEFINE, X: call(vs("SortedKeys"), ast.NewIdent(mName)), Body: &ast.BlockStmt{List: body}}
 	return &ast.BlockStmt{List: []ast.Stmt{
-		&ast.AssignStmt{Lhs: []ast.Expr{ast.NewIdent(mName)}, Tok: token.DEFINE, Rhs: []ast.Expr{n.X}},
+		&ast.AssignStmt{Lhs: []ast.Expr{ast.NewIdent(mName)}, Tok: token.DEFINE, Rhs: []ast.Expr{call(vs("MR"), n.X, r.site(n))}},
 		loop,
 	}}
 }
@@ -377,4 +387,229 @@ func (r *rewriter) rewriteSelect(n *ast.SelectStmt) ast.Stmt {
 	sw := &ast.SwitchStmt{Tag: call(&ast.SelectorExpr{X: ast.NewIdent(sel), Sel: ast.NewIdent("Wait")}, ast.NewIdent(def)), Body: &ast.BlockStmt{List: clauses}}
 	stmts = append(stmts, sw)
 	return &ast.BlockStmt{List: stmts}
+}
+
+// ---- access pass ---------------------------------------------------------------------------------------------
+
+func (r *rewriter) site(n ast.Node) ast.Expr {
+	return &ast.BasicLit{Kind: token.STRING, Value: strconv.Quote(r.pos(n))}
+}
+
+func isShimType(t types.Type) bool {
+	if p, ok := t.(*types.Pointer); ok {
+		t = p.Elem()
+	}
+	if n, ok := t.(*types.Named); ok && n.Obj().Pkg() != nil {
+		return strings.HasPrefix(n.Obj().Pkg().Path(), "verif/shim/") || n.Obj().Pkg().Path() == "sync" || n.Obj().Pkg().Path() == "time"
+	}
+	return false
+}
+
+// sharedAddr reports whether e denotes an addressable location that other goroutines may reach:
+// something behind a pointer, an element of a slice, or (a part of) a package-level variable.
+func (r *rewriter) sharedAddr(e ast.Expr) bool {
+	switch n := e.(type) {
+	case *ast.ParenExpr:
+		return r.sharedAddr(n.X)
+	case *ast.StarExpr:
+		return true
+	case *ast.SelectorExpr:
+		sel := r.info.Selections[n]
+		if sel == nil {
+			return false // pkg.Var of another package
+		}
+		if sel.Kind() != types.FieldVal {
+			return false
+		}
+		if sel.Indirect() {
+			return true
+		}
+		if t := r.info.TypeOf(n.X); t != nil {
+			if _, ok := t.Underlying().(*types.Pointer); ok {
+				return true
+			}
+		}
+		return r.sharedAddr(n.X)
+	case *ast.Ident:
+		v, ok := r.info.Uses[n].(*types.Var)
+		return ok && !v.IsField() && v.Pkg() != nil && v.Parent() == v.Pkg().Scope()
+	case *ast.IndexExpr:
+		t := r.info.TypeOf(n.X)
+		if t == nil {
+			return false
+		}
+		switch t.Underlying().(type) {
+		case *types.Slice:
+			return true
+		case *types.Array:
+			return r.sharedAddr(n.X)
+		case *types.Pointer: // pointer to array
+			return true
+		}
+	}
+	return false
+}
+
+func (r *rewriter) preAcc(c *astutil.Cursor) bool {
+	switch n := c.Node().(type) {
+	case *ast.IndexExpr:
+		if r.isMap(n.X) {
+			r.mapIdx[n] = r.pos(n)
+		}
+	case *ast.CallExpr:
+		if id, ok := n.Fun.(*ast.Ident); ok && len(n.Args) >= 1 {
+			if _, isBuiltin := r.info.Uses[id].(*types.Builtin); isBuiltin && (id.Name == "delete" || id.Name == "len") && r.isMap(n.Args[0]) {
+				r.mapCalls[n] = id.Name
+			}
+		}
+	case *ast.FuncDecl:
+		// init functions and package-level initialisers run before any scheduler exists; they are still safe to instrument
+	}
+	return true
+}
+
+// use classifies how the parent uses the expression at the cursor: "skip", "read" or "write".
+func (r *rewriter) use(c *astutil.Cursor, t types.Type) string {
+	isPtr := false
+	if t != nil {
+		_, isPtr = t.Underlying().(*types.Pointer)
+	}
+	switch p := c.Parent().(type) {
+	case *ast.SelectorExpr:
+		if c.Name() != "X" {
+			return "skip"
+		}
+		ps := r.info.Selections[p]
+		if ps == nil {
+			return "read"
+		}
+		switch ps.Kind() {
+		case types.FieldVal:
+			if isPtr {
+				return "read" // the pointer is loaded, the field behind it is a separate access
+			}
+			return "skip" // path prefix
+		case types.MethodVal:
+			if isPtr {
+				return "read"
+			}
+			if f, ok := ps.Obj().(*types.Func); ok {
+				if recv := f.Type().(*types.Signature).Recv(); recv != nil {
+					if _, ptrRecv := recv.Type().(*types.Pointer); ptrRecv {
+						return "skip" // implicit address-of
+					}
+				}
+			}
+			return "read"
+		}
+		return "read"
+	case *ast.UnaryExpr:
+		if p.Op == token.AND {
+			return "skip"
+		}
+	case *ast.AssignStmt:
+		if c.Name() == "Lhs" {
+			return "write"
+		}
+	case *ast.IncDecStmt:
+		return "write"
+	case *ast.RangeStmt:
+		if c.Name() == "Key" || c.Name() == "Value" {
+			return "write"
+		}
+	case *ast.IndexExpr:
+		if c.Name() == "X" && t != nil {
+			if _, ok := t.Underlying().(*types.Array); ok {
+				return "skip"
+			}
+		}
+	case *ast.SliceExpr:
+		if c.Name() == "X" && t != nil {
+			if _, ok := t.Underlying().(*types.Array); ok {
+				return "skip"
+			}
+		}
+	case *ast.ValueSpec, *ast.Field, *ast.KeyValueExpr:
+		if c.Name() == "Names" || c.Name() == "Key" {
+			return "skip"
+		}
+	}
+	return "read"
+}
+
+func (r *rewriter) wrap(e ast.Expr, write bool, at ast.Node) ast.Expr {
+	fn := "R"
+	if write {
+		fn = "W"
+	}
+	r.needVS = true
+	r.changed = true
+	return &ast.ParenExpr{X: &ast.StarExpr{X: call(vs(fn), &ast.UnaryExpr{Op: token.AND, X: e}, r.site(at))}}
+}
+
+func (r *rewriter) postAcc(c *astutil.Cursor) bool {
+	switch n := c.Node().(type) {
+	case *ast.SelectorExpr:
+		sel := r.info.Selections[n]
+		if sel == nil || sel.Kind() != types.FieldVal {
+			return true
+		}
+		ft := sel.Type()
+		if isShimType(ft) {
+			if _, ok := ft.(*types.Pointer); !ok {
+				return true
+			}
+		}
+		if !r.sharedAddr(n) {
+			return true
+		}
+		switch r.use(c, ft) {
+		case "read":
+			c.Replace(r.wrap(n, false, n))
+		case "write":
+			c.Replace(r.wrap(n, true, n))
+		}
+	case *ast.Ident:
+		v, ok := r.info.Uses[n].(*types.Var)
+		if !ok || v.IsField() || v.Pkg() == nil || v.Parent() != v.Pkg().Scope() {
+			return true
+		}
+		if strings.HasPrefix(v.Pkg().Path(), "verif/") || isShimType(v.Type()) {
+			return true
+		}
+		if _, isSel := c.Parent().(*ast.SelectorExpr); isSel && c.Name() == "Sel" {
+			return true
+		}
+		switch r.use(c, v.Type()) {
+		case "read":
+			c.Replace(r.wrap(n, false, n))
+		case "write":
+			c.Replace(r.wrap(n, true, n))
+		}
+	case *ast.IndexExpr:
+		if at, ok := r.mapIdx[n]; ok {
+			fn := "MR"
+			switch p := c.Parent().(type) {
+			case *ast.AssignStmt:
+				if c.Name() == "Lhs" {
+					fn = "MW"
+				}
+			case *ast.IncDecStmt:
+				_ = p
+				fn = "MW"
+			}
+			n.X = call(vs(fn), n.X, &ast.BasicLit{Kind: token.STRING, Value: strconv.Quote(at)})
+			r.needVS, r.changed = true, true
+		}
+	case *ast.CallExpr:
+		switch r.mapCalls[n] {
+		case "delete":
+			n.Args[0] = call(vs("MW"), n.Args[0], r.site(n))
+			r.needVS, r.changed = true, true
+		case "len":
+			n.Args[0] = call(vs("MR"), n.Args[0], r.site(n))
+			r.needVS, r.changed = true, true
+		}
+	}
+	return true
 }
